@@ -60,6 +60,7 @@ def build_world() -> World:
     f("Node", "logic", Ref("Logic"))
     f("Logic", "actions", DictSort(STR, Callable_))       # MachineLogic.actions: name -> user callable
     f("Logic", "services", DictSort(STR, OPAQUE))
+    f("Logic", "guards", DictSort(STR, Callable_))        # MachineLogic.guards: name -> user predicate
     w.inline_prop("Node", "is_final", "xstate_statemachine.models", "StateNode.is_final")
     w.inline_prop("Node", "is_atomic", "xstate_statemachine.models", "StateNode.is_atomic")
 
@@ -166,13 +167,61 @@ def build_world() -> World:
        "definition (python dict: every enumerated key is a key of the dict)")
     ax("D-states-wf2", "forall[Node, str](lambda n, k: implies(n != None and k in n.states, 0 <= keyidx(n.states, k) and keyidx(n.states, k) < len(n.states) and keys(n.states)[keyidx(n.states, k)] == k), lambda n, k: k in n.states)",
        "definition (python dict: every key of the dict is enumerated)")
-    ax("D-states-len", "forall[Node](lambda n: len(n.states) >= 0, lambda n: len(n.states))", "definition (python dict: a length is not negative)")
+    ax("D-states-len", "forall[Node](lambda n: implies(n != None, len(n.states) >= 0), lambda n: len(n.states))", "definition (python dict: a length is not negative)")
 
     # height(n): length of the longest path below n - exists because the tree is finite (A-tree); used as termination measure of
     # the recursive entry routine
     w.fn("height", [Node], INT)
     ax("T-height", "forall[Node](lambda n: implies(n != None, height(n) >= 0 and height(n) <= height(root) and implies(n.parent != None, height(n) < height(n.parent))), lambda n: height(n))",
        "assumed: the state tree is finite (A-tree), so every node has a height, smaller than its parent's and at most the root's")
+
+    # ---- where transitions live: every TransitionDefinition stored on a state has that state as its source
+    ax("D-on-source", "forall[Node, str, int](lambda n, k, i: implies(n != None and k in n.on and 0 <= i and i < len(n.on[k]), n.on[k][i] != None and n.on[k][i].source == n), lambda n, k, i: n.on[k][i])",
+       "bounded:StateNode.__init__ builds every `on` entry with TransitionDefinition(..., source=self)")
+    ax("D-ondone-source", "forall[Node](lambda n: implies(n != None and n.on_done != None, n.on_done.source == n), lambda n: n.on_done)",
+       "bounded:StateNode.__init__ builds onDone with source=self")
+    ax("D-after-source", "forall[Node, Opaque, int](lambda n, k, i: implies(n != None and k in n.after and 0 <= i and i < len(n.after[k]), n.after[k][i] != None and n.after[k][i].source == n), lambda n, k, i: n.after[k][i])",
+       "bounded:StateNode.__init__ builds every `after` entry with source=self")
+    ax("D-after-wf", "forall[Node, int](lambda n, i: implies(n != None and 0 <= i and i < len(n.after), keys(n.after)[i] in n.after), lambda n, i: keys(n.after)[i])",
+       "definition (python dict: every enumerated key is a key of the dict)")
+    ax("D-invoke-source", "forall[Node, int](lambda n, i: implies(n != None and 0 <= i and i < len(n.invoke), n.invoke[i] != None and n.invoke[i].source == n), lambda n, i: n.invoke[i])",
+       "bounded:StateNode.__init__ builds InvokeDefinition(..., source=self)")
+    ax("D-invoke-ondone-source", "forall[Inv, int](lambda v, i: implies(v != None and 0 <= i and i < len(v.on_done), v.on_done[i] != None and v.on_done[i].source == v.source), lambda v, i: v.on_done[i])",
+       "bounded:InvokeDefinition.__init__ builds onDone transitions with the invoking state as source")
+    ax("D-invoke-onerror-source", "forall[Inv, int](lambda v, i: implies(v != None and 0 <= i and i < len(v.on_error), v.on_error[i] != None and v.on_error[i].source == v.source), lambda v, i: v.on_error[i])",
+       "bounded:InvokeDefinition.__init__ builds onError transitions with the invoking state as source")
+
+    # ---- guard definitions (C06): a finite tree of GuardDefinition objects
+    w.fn("gsize", [Guard], INT)
+    ax("D-guard-wf", "forall[Guard](lambda g: implies(g != None, gsize(g) >= 0 and len(g.children) >= 0 "
+       "and implies(g.is_composite, (g.type == 'and' or g.type == 'or' or g.type == 'not') and len(g.children) >= 1)), lambda g: gsize(g))",
+       "bounded:GuardDefinition.__init__ rejects a composite guard without operands and a 'not' without exactly one")
+    ax("D-guard-wf2", "forall[Guard](lambda g: implies(g != None and g.is_composite, (g.type == 'and' or g.type == 'or' or g.type == 'not') and len(g.children) >= 1), lambda g: g.is_composite)",
+       "bounded:GuardDefinition.__init__ (same fact, triggered by the composite test)")
+    ax("D-guard-children", "forall[Guard, int](lambda g, i: implies(g != None and 0 <= i and i < len(g.children), g.children[i] != None and gsize(g.children[i]) < gsize(g)), lambda g, i: g.children[i])",
+       "bounded:GuardDefinition.__init__ builds children from GuardDefinition(...) constructor calls (a finite tree)")
+    # what calling a user predicate yields: A-guard-pure - during one evaluation a predicate's outcome (truth value, or raising)
+    # is a function of the predicate, the event and the context it is given
+    w.fn("ucall_truth", [Callable_, Ev, OPAQUE], BOOL)
+    w.fn("ucall_raises", [Callable_, Ev, OPAQUE], BOOL)
+    w.fn("praises", [OPAQUE, Ev, OPAQUE], BOOL)          # resolving (possibly computed) params raises
+    # the built-in stateIn test (BaseInterpreter._is_state_in: string matching over the active configuration; bounded.c06)
+    w.fn("stin", [Guard, Ev, SetSort(Node)], BOOL)
+    # gmiss(g): evaluating g may need a predicate that is not implemented; gval(g, ev, A, ctx): the value of g when nothing is missing
+    w.fn("gmiss", [Guard], BOOL)
+    w.fn("gval", [Guard, Ev, SetSort(Node), OPAQUE], BOOL)
+    LEAF_BUILTIN = "(g.is_state_in and not (g.type in root.logic.guards))"
+    ax("G-miss", "forall[Guard](lambda g: implies(g != None, gmiss(g) == ite(g.is_composite, "
+       "ite(g.type == 'not', gmiss(g.children[0]), exists[int](lambda i: 0 <= i and i < len(g.children) and gmiss(g.children[i]))), "
+       f"not {LEAF_BUILTIN} and (not (g.type in root.logic.guards) or root.logic.guards[g.type] == None))), lambda g: gmiss(g))",
+       "definition (from the C06 statement: a guard that is named but not implemented)")
+    ax("G-val", "forall[Guard, Event, NodeSet, Opaque](lambda g, e, A, c: implies(g != None, gval(g, e, A, c) == ite(g.is_composite, "
+       "ite(g.type == 'and', forall[int](lambda i: implies(0 <= i and i < len(g.children), gval(g.children[i], e, A, c))), "
+       "ite(g.type == 'or', exists[int](lambda i: 0 <= i and i < len(g.children) and gval(g.children[i], e, A, c)), "
+       "not gval(g.children[0], e, A, c))), "
+       f"ite({LEAF_BUILTIN}, stin(g, e, A), not praises(g.params, e, c) and not ucall_raises(root.logic.guards[g.type], e, c) and ucall_truth(root.logic.guards[g.type], e, c)))), "
+       "lambda g, e, A, c: gval(g, e, A, c))",
+       "definition (from the C06 statement: and/or/not with ordinary boolean meaning at any depth; a predicate that raises counts as false)")
 
     # child_toward(d, t): the child of d on the path down to t (defined when t is a proper descendant of d)
     w.fn("child_toward", [Node, Node], Node)
@@ -222,6 +271,8 @@ def build_world() -> World:
     w.assume("A-log: logger calls are effect-free (their arguments are checked to contain no calls other than attribute reads)")
     w.assume("A-actors: another interpreter (child or parent actor) never writes this interpreter's private fields; it reaches it through send()")
     w.assume("A-uuid: a string embedding a fresh uuid4 differs from every string that existed before")
+    w.assume("A-guard-pure: while one guard expression is evaluated, a user predicate's outcome (truth value or raising) is a function of "
+             "the predicate, the event and the context (the library itself memoises guards per selection pass on that assumption)")
     w.assume("A-int: python integers are mathematical integers (exact in python); strings are z3/cvc5 sequences of unicode code points")
 
     # ------------------------------------------------------------------ hooks
